@@ -298,6 +298,14 @@ if __name__ == "__main__":
     elif what == "lean-driver":
         print(lean_driver("PsetInput", INPUT, "In")); print()
         print(lean_driver("PsetOutput", OUTPUT, "Out"))
+    elif what == "lean-table":
+        def tbl(name, table):
+            return "def %s : List (String × String × String) := [\n  %s]" % (name, ",\n  ".join('("%s", "%s", "%s")' % t for t in table))
+        print("/- GENERATED by tools/gen_pset_fields.py lean-table — the field table the PSET model (structures, merge,\n   per-field theorems, dumps) is generated from: (Rust field name, model kind, merge kind). -/")
+        print("namespace EV.PsetFieldTable\n")
+        print(tbl("input", INPUT)); print()
+        print(tbl("output", OUTPUT)); print()
+        print("end EV.PsetFieldTable")
     elif what == "rust":
         print(rust(INPUT, RUST_IN, "input", "Input")); print()
         print(rust(OUTPUT, RUST_OUT, "output", "Output"))
